@@ -9,7 +9,7 @@ import Spine.DiscoveryThm
 namespace Spine.Disc
 
 /-- entry and feature literals for the witnesses (the only place to touch when `EI` / `F` gain fields) -/
-def mkEI (addr : List Nat) (typ : Nat) (chg : Chg) : EI := { addr := addr, typ := typ, chg := chg }
+def mkEI (addr : List Nat) (typ : Nat) (chg : Chg) : EI := { addr := addr, typ := typ, chg := chg, desc := none }
 
 /-- the source-feature lookup of a node-management datagram succeeds: `DeviceRemote.FeatureByAddress([0], 0)` -/
 def nmPresent (t : Tree) : Bool :=
